@@ -2,6 +2,7 @@
 import Verif.Common.Proto
 import Verif.C12.Model
 import Verif.C12.Compose
+import Verif.C12.ComposeLines
 open Lean Verif.Proto Verif.C12
 
 namespace Verif.C12.Driver
@@ -188,17 +189,16 @@ def obsC (watch : List Name) (r : Compose.CDir × Option Err) : Json :=
     ("schema", match d.schema with | none => Json.null | some s => jList Json.str s.names),
     ("rels", Json.arr rels.toArray)]
 
-/-- the composed answer, or `none` when the case is outside what C08/C09/C11 model -/
-def handleComposed (j : Json) : Except String (Option Json) := do
+/-- one `mkprof` call of the composed model on the destination as it is now; `none` when the call is
+outside what C08/C09/C11 model.  `j` holds the options of the call, `src` the source profile (db). -/
+def stepC (j : Json) (src : Compose.CDir) (now : Nat) (dst : Compose.CDir) :
+    Except String (Option (Compose.CDir × Option Err)) := do
   let op ← getStr j "op"
-  let watch ← (← getArr j "watch").mapM (·.getStr?)
-  let dst ← ofDirC (← j.getObjVal? "dst")
   let schema ← ofOptSchema j "schema"
   let gzip ← getBool j "gzip"
   let skeleton ← getBool j "skeleton"
   match op with
   | "db" =>
-    let src ← ofDirC (← j.getObjVal? "src")
     let cond ← match j.getObjVal? "cond" with
       | .ok Json.null => pure none
       | .error _ => pure none
@@ -209,14 +209,56 @@ def handleComposed (j : Json) : Except String (Option Json) := do
     if !Compose.composable src.schema cond then return none
     let p : Compose.CParams := { schema := schema, cond := cond, full := ← getBool j "full", gzip := gzip,
                                  skeleton := skeleton }
-    let r := Compose.mkprofDbC (rxOf tbl) MID src dst p
+    let r := Compose.mkprofDbC (rxOf tbl) now src dst p
     if r.2 = some .unmodelled then return none
-    pure (some (obsC watch r))
+    pure (some r)
   | "refresh" =>
-    let r := Compose.mkprofRefreshC MID dst schema gzip skeleton
+    let r := Compose.mkprofRefreshC now dst schema gzip skeleton
     if r.2 = some .unmodelled then return none
-    pure (some (obsC watch r))
+    pure (some r)
+  | "lines" =>
+    -- the characters of the stream and how it was opened; nothing else
+    let delim ← getOptCps j "delim"
+    let raw ← getCps j "raw"
+    let stream ← match ← getStr j "stream" with
+      | "file" => pure Compose.Stream.file
+      | "asis" => pure Compose.Stream.asIs
+      | s => throw s!"bad stream {s}"
+    let r := Compose.mkprofLinesC now dst schema delim stream raw gzip skeleton
+    if r.2 = some .unmodelled then return none
+    pure (some r)
   | _ => pure none
+
+/-- a history of calls on ONE destination directory (and one source profile): the directory a call
+leaves — also when it raises — is what the next call finds; the clock advances with every call -/
+def historyC (watch : List Name) (src : Compose.CDir) : Nat → Compose.CDir → List Json →
+    Except String (Option (List Json))
+  | _, _, [] => pure (some [])
+  | now, dst, j :: js => do
+    match ← stepC j src now dst with
+    | none => pure none
+    | some r =>
+      match ← historyC watch src (now + 1) r.1 js with
+      | none => pure none
+      | some rest => pure (some (obsC watch r :: rest))
+
+/-- the composed answer, or `none` when the case is outside what C08/C09/C11 model -/
+def handleComposed (j : Json) : Except String (Option Json) := do
+  let op ← getStr j "op"
+  let watch ← (← getArr j "watch").mapM (·.getStr?)
+  let dst ← ofDirC (← j.getObjVal? "dst")
+  let src ← match j.getObjVal? "src" with
+    | .ok v => ofDirC v
+    | .error _ => pure { schema := none, files := fun _ => {} }
+  match op with
+  | "history" =>
+    match ← historyC watch src MID dst (← getArr j "steps") with
+    | none => pure none
+    | some obs => pure (some (Json.mkObj [("res", Json.str "history"), ("steps", Json.arr obs.toArray)]))
+  | _ =>
+    match ← stepC j src MID dst with
+    | none => pure none
+    | some r => pure (some (obsC watch r))
 
 def handleParam (j : Json) : Except String Json := do
   let op ← getStr j "op"
@@ -236,6 +278,7 @@ def handleParam (j : Json) : Except String Json := do
     let delim ← getOptCps j "delim"
     let lines ← (← getArr j "lines").mapM ofCps
     pure (obs watch (mkprofLines MID dst schema delim lines gzip skeleton))
+  | "history" => pure (Json.mkObj [("res", Json.str "unmodelled")])
   | _ => throw s!"bad op {op}"
 
 /-- composed model first (`"composed": true` in the request); the answer says which path produced it -/
@@ -245,6 +288,9 @@ def handle (j : Json) : Except String Json := do
     match ← handleComposed j with
     | some r => return r.setObjVal! "path" (Json.str "composed")
     | none => pure ()
+  if (← getStr j "op") = "history" then
+    -- a history is answered by the composed model or not at all
+    return Json.mkObj [("res", Json.str "unmodelled"), ("path", Json.str "none (a call outside the composed model)")]
   let r ← handleParam j
   pure (r.setObjVal! "path" (Json.str "param"))
 
